@@ -3,7 +3,7 @@
 cd /verif || exit 2
 for d in seeded/C*/; do
   id=$(basename $d)
-  git -C /repo apply $d/patch.diff || { echo "$id APPLY-FAILED"; continue; }
+  git -C /repo apply /verif/$d/patch.diff || { echo "$id APPLY-FAILED"; continue; }
   out=$(VERIF_SEED=${1:-1} ./check $id quick 2>&1); rc=$?
   git -C /repo checkout -- .
   echo "$id rc=$rc $(echo "$out" | grep -E 'clause=' | head -1 | cut -c1-160)"
